@@ -295,6 +295,9 @@ func liveLabels(v Vars, o buildOpts, before map[string]string) []string {
 	}
 	out := append([]string{}, v.targets()...)
 	out = append(out, "source://src:a.txt", "source://gen:g.txt", "source://:dir", "source://pkg:b.txt")
+	if v.XSrc {
+		out = append(out, "source://pkg:c.txt")
+	}
 	return out
 }
 
